@@ -45,7 +45,10 @@ def of(x):
 def og(x):
     return of(x) + 1
 '''
-PKG_INIT = 'from .sib import sf\nPKGCONST = 5\n'
+# importing these modules is observable, and what they show depends on what the program did before it imported them: a selection must not get
+# them imported earlier than the program does
+IMPORT_TRACE = 'import os as _o\nprint("%s imported; mode", _o.environ.get("LPV_MODE", "unset"))\n'
+PKG_INIT = 'from .sib import sf\nPKGCONST = 5\n' + IMPORT_TRACE % 'pkgk'
 PKG_SIB = 'def sf(x):\n    return x + 7\n\n\ndef sg(x):\n    return x * 3\n'
 PKG_DEEP = 'def df(x):\n    return x + 1000\n'
 PKG_DPKG = 'def dpf(x):\n    return x + 5000\n'
@@ -109,7 +112,7 @@ def gen_program(rng, module_mode=False, force_imports=None):
     defs = rng.sample(DEFS, rng.below(6) + 2)
     if not any(d[0].startswith('def gen(') for d in defs):
         defs = [d for d in defs if 'isgeneratorfunction' not in d[1]] or defs[:1]
-    lines = list(futs) + PRELUDE.rstrip('\n').split('\n')
+    lines = list(futs) + ['import os as _os0', '_os0.environ["LPV_MODE"] = "set by the program"'] + PRELUDE.rstrip('\n').split('\n')
     exprs = []
     for st, ex in imps:
         lines.append(st)
@@ -137,7 +140,7 @@ def gen_program(rng, module_mode=False, force_imports=None):
     for ex in exprs:
         lines.append('    print(%r, repr(%s))' % (ex[:30], ex))
     text = '\n'.join(lines) + '\n'
-    files = {'helper.py': HELPER, 'other.py': OTHER, 'pkgk/__init__.py': PKG_INIT, 'pkgk/sib.py': PKG_SIB, 'pkgk/sub/__init__.py': '',
+    files = {'helper.py': HELPER + IMPORT_TRACE % 'helper', 'other.py': OTHER, 'pkgk/__init__.py': PKG_INIT, 'pkgk/sib.py': PKG_SIB, 'pkgk/sub/__init__.py': IMPORT_TRACE % 'pkgk.sub',
              'pkgk/sub/deep.py': PKG_DEEP, 'pkgk/sub/dpkg/__init__.py': PKG_DPKG}
     if module_mode:
         rel = ['from . import sib as rsib', 'from .sib import sg as rsg', 'from .sub import deep as rdeep', 'from .sub.deep import df as rdf']
